@@ -19,7 +19,10 @@ RULE = ("corpus 1 = the C05 corpus: nesting shapes (compositions up to depth D o
         "add_action carry-over arguments} (locals r<=3 and 60 frames, globals of r<=3 and 300 clones) x release order {ascending, descending, "
         "all at once}; r clones of one blueprint (program reference count) destructed in both orders; 3 cyclic containers (memory safety "
         "only: a reference-counting VM does not collect cycles); 4 scenarios of callbacks (call_out by name/funptr, bound and functional "
-        "funptrs, add_action by name/funptr) that outlive their destructed creator.  Oracle: every scenario runs 3 times in one process, "
+        "funptrs, add_action by name/funptr) that outlive their destructed creator; 18 zombie scenarios: an object destructs itself and, still "
+        "running, calls call_out (by name, funptr), add_action (by name, funptr, carry-over args), input_to, get_char, set_heart_beat, "
+        "set_living_name, enable_commands, move_object, bind, a plain call, a bound funptr, call_other, filter with extra args, clone, "
+        "call_out+remove_call_out, notify_fail(function), all with ref-counted arguments.  Oracle: every scenario runs 3 times in one process, "
         "each followed by destruct of everything it created, three call_out sweeps, remove_destructed_objects(), release of apply_ret_value "
         "and catch_value, clear_apply_cache(); leak <=> counter vector after run 3 != after run 2; vector = num_arrays, total_array_size, "
         "num_mappings, total_mapping_nodes, total_mapping_size, num_distinct_strings, bytes_distinct_strings, tot_alloc_object, "
